@@ -886,6 +886,28 @@ def gen_replace_by_own_name(seed, mode="loop"):
     return sc
 
 
+def gen_registry_last_token(seed, mode="loop"):
+    """C09: a throttled RUNNING module spends its last token on the registration of a source that the poll layer then
+    refuses: the rejected registration leaves no trace (its roll-back is not a user action and needs no token)"""
+    r = random.Random(seed * 113 + 89)
+    sc = Sc(mode, "rejected registration with the last token seed=%d" % seed)
+    driven_skeleton(sc)
+    M = 1
+    sc.mod(M, "thr", 0, 0)
+    sc.cb(M, "evt", "*", [])
+    sc.main += [("reg", M), ("start", M), ("fd_open", 1, 2, 0), ("fd_open", 2, 0, 0)]
+    sc.meta["unpollable_fds"] = {1}
+    sc.meta["max_ufd"] = 4
+    burst = r.randrange(1, 4)
+    kind = r.choice(["fd", "tmr"])
+    bad_reg = ("fd_reg", M, 1, r.choice([0, SRC_DUP]), sc.ud()) if kind == "fd" else ("tmr_reg", M, 77000000000 + r.randrange(3), 0, sc.ud(), 9)
+    spend = [("fd_reg", M, 2, 0, sc.ud()), ("sub", M, sc.topic("alpha"), 0, sc.ud()), ("sub", M, sc.topic("beta"), 0, sc.ud())][:burst - 1]
+    steps = [[("tb", M, 1, burst)] + spend + [bad_reg, ("srclen", M)], [("tb", M, 0, 0), ("srclen", M)], []]
+    driven_finish(sc, steps, rng=r)
+    finalize_main(sc)
+    return sc
+
+
 def gen_tick_in_flush(seed, mode="loop"):
     """C20: m_ctx_set_tick() called by a handler that the final flush of a loop run invokes (loop-stopped notification) while a
     tick is active"""
